@@ -1,6 +1,7 @@
 package tds
 
 import (
+	"io"
 	"sync"
 )
 
@@ -96,4 +97,45 @@ func hParseHeader(w []byte) hHeader {
 		channel: int(w[4])<<8 | int(w[5]),
 		packetNr: w[6], window: w[7],
 	}
+}
+
+// hStream serves a byte string through Read calls of arbitrary sizes and then
+// ends the way `end` says.
+type hStream struct {
+	data   []byte
+	pos    int
+	end    int // 0: (0, io.EOF) forever; 1: (0, errHRead); 2: last chunk together with io.EOF
+	reads  int
+	maxChunks int
+}
+
+func (s *hStream) Read(p []byte) (int, error) {
+	s.reads++
+	rest := len(s.data) - s.pos
+	if rest == 0 || len(p) == 0 {
+		if rest == 0 {
+			if s.end == 1 {
+				return 0, errHRead
+			}
+			return 0, io.EOF
+		}
+		return 0, nil
+	}
+	n := rest
+	if len(p) < n {
+		n = len(p)
+	}
+	if s.reads <= s.maxChunks {
+		// the transport may hand over any non-empty part of what is available
+		c := vfInt("chunk", 1, 70000)
+		if c < n {
+			n = c
+		}
+	}
+	copy(p, s.data[s.pos:s.pos+n])
+	s.pos += n
+	if s.pos == len(s.data) && s.end == 2 {
+		return n, io.EOF
+	}
+	return n, nil
 }
